@@ -684,6 +684,58 @@ func c08RoleChanges() vh.Unit {
 	}}
 }
 
+// a client that lost its peers and says so (keep-alives with an empty list): once the old peers'
+// entries have aged out they are candidates again - a fresh, connected, acknowledging host must be
+// offered, on both drivers
+func c08LostPeers() vh.Unit {
+	return vh.Unit{Name: "lost-peers-are-offered-again", Run: func(u *vh.U) {
+		cast := vh.StdCast()
+		for _, driver := range vh.Drivers {
+			for _, reports := range []string{"-", "H2"} { // what the client reports meanwhile: nothing / its other peer
+				for _, rounds := range []int{1, 2, 3, 4} {
+					vsched.ResetClock(0)
+					pw := vh.NewPoolWorld(vh.PoolConfig{Driver: driver, NoManager: true})
+					for _, e := range []string{"conn H1", "conn H2", "conn C1", "upd C1 H1,H2"} {
+						if err := vh.PoolEvent(pw, cast, e); err != nil {
+							u.Violate("peers/setup", err.Error(), nil)
+							return
+						}
+					}
+					for i := 0; i < rounds; i++ {
+						vsched.Advance(45 * time.Second)
+						for _, e := range []string{"upd H1 -", "upd H2 -", "upd C1 " + reports} {
+							vh.PoolEvent(pw, cast, e)
+						}
+					}
+					resp, err := pw.Peer(vh.CtxWith(pw.Host("asker").Service()), cast.ByName["C1"], 2, "")
+					u.R.Evaluations++
+					u.R.States++
+					u.R.Transitions++
+					u.R.Traces++
+					got := map[string]bool{}
+					if resp != nil {
+						for _, n := range resp.Peers {
+							got[string(n.ID)] = true
+						}
+					}
+					// H1 was last reported at t=0: its entry is gone once 120 s have passed
+					wantH1 := time.Duration(rounds)*45*time.Second > 120*time.Second
+					u.Observe(fmt.Sprintf("lost-peers %s reports=%s rounds=%d offered=%v", driver, reports, rounds, got[cast.ByName["H1"].NodeID]))
+					if got[cast.ByName["H1"].NodeID] != wantH1 {
+						cls := "tracked-peer-returned"
+						if wantH1 {
+							cls = "error-although-hosts-available"
+						}
+						u.Violate("peers/"+cls, fmt.Sprintf("driver %s: the client reported host H1 at t=0 and then %d keep-alives (every 45 s) reporting %q while H1 kept checking in; a request for 2 hosts returned H1: %v (err=%v), expected %v", driver, rounds, reports, got[cast.ByName["H1"].NodeID], err, wantH1), nil)
+						return
+					}
+				}
+			}
+		}
+		u.Sample("a client that stops reporting a host: after 45/90/135/180 s of keep-alives without it the host is (not yet / again) offered, both drivers")
+	}}
+}
+
 func c08Wide(driver string, n int) vh.Unit {
 	name := fmt.Sprintf("wide-population/%s/x%d", driver, n)
 	return vh.Unit{Name: name, Run: func(u *vh.U) {
@@ -770,7 +822,7 @@ func init() {
 			if tier == "thorough" {
 				us = append(us, c08Wide(vh.Memory, 96))
 			}
-			us = append(us, c08BinaryMaxHosts(), c08RoleChanges())
+			us = append(us, c08BinaryMaxHosts(), c08RoleChanges(), c08LostPeers())
 			return us
 		},
 	})
